@@ -126,6 +126,26 @@ def h_encode(kind):
         body = b'\x02\0\0\0' + b'\x08' + _be(pr, 1) + b'\x00\x28' + _be(sp, 2) + _be(ep, 2) + _be(sa, 16) + _be(ea, 16) + \
             b'\x07\x00\x00\x10\x00\x00\xff\xff' + bytes([10, 0, 0, 0, 10, 0, 0, 255])
         same = lambda q: core.sym_and(len(q.traffic_selectors) == 2, q.traffic_selectors[0] == ts6, q.traffic_selectors[1] == ts4)
+    elif kind.startswith('DELETEx'):
+        # long lists: every element is encoded, decoded and shown in the dump (a cap, a window, a de-duplication would lose some)
+        n = int(kind[7:])
+        pr = I('proto', 0, 3)
+        spis = [S(f'spi{i}', 4) for i in range(n)]
+        p = m.PayloadDELETE(pr, list(spis)); t = 42
+        body = _be(pr, 1) + b'\x04' + n.to_bytes(2, 'big')
+        for x in spis:
+            body = body + x
+        same = lambda q: core.sym_and(q.protocol_id == pr, len(q.spis) == n, *[q.spis[i] == spis[i] for i in range(min(n, len(q.spis)))])
+    elif kind.startswith('TSx'):
+        import ipaddress
+        n = int(kind[3:])
+        ports = [I(f'port{i}', 0, 65535) for i in range(n)]
+        tss = [m.TrafficSelector(7, 6, ports[i], ports[i], ipaddress.ip_address('10.0.0.0'), ipaddress.ip_address('10.0.0.255')) for i in range(n)]
+        p = m.PayloadTSi(list(tss)); t = 44
+        body = bytes([n, 0, 0, 0])
+        for i in range(n):
+            body = body + b'\x07\x06\x00\x10' + _be(ports[i], 2) + _be(ports[i], 2) + bytes([10, 0, 0, 0, 10, 0, 0, 255])
+        same = lambda q: core.sym_and(len(q.traffic_selectors) == n, *[q.traffic_selectors[i] == tss[i] for i in range(min(n, len(q.traffic_selectors)))])
     elif kind == 'DELETE3':
         pr, s1, s2, s3 = I('proto', 0, 3), S('spi1', 4), S('spi2', 4), S('spi3', 4)
         p = m.PayloadDELETE(pr, [s1, s2, s3]); body = _be(pr, 1) + b'\x04\x00\x03' + s1 + s2 + s3; t = 42
@@ -340,15 +360,91 @@ def h_clear_then_sk(n_clear, with_inner):
     return ['clear+sk', n_clear, with_inner]
 
 
+def h_unknown(position):
+    """a payload of a type the library has no class for, with an ARBITRARY C|RESERVED octet, NOT in first position: after a clear payload, as the first
+    payload inside a correctly protected Encrypted payload, or after another payload in there.  Critical bit set: the message is rejected AS an
+    unsupported critical payload (so that the peer is told UNSUPPORTED_CRITICAL_PAYLOAD) and the exception can be rendered; clear: it is skipped"""
+    from symx import core
+    import z3
+    eng = core.engine()
+    m, c = MODS['message'], MODS['crypto']
+    T = m.Transform
+    t = eng.sym_int('unknown_type', 1, 255)
+    known = [int(k) for k in m.Message.type_2_payload]
+    eng.assume(core.sym_and(*[t != k for k in known]))
+    octet = eng.sym_int('c_reserved', 0, 255)
+    body = eng.sym_bytes('body', 4)
+    B = lambda v: core.SymBytes([core.int_to_byte(v)]) if not isinstance(v, int) else bytes([v])
+    unknown = b'\0' + B(octet) + b'\0\x08' + body               # generic header (next = NONE) + 4 octets
+    nonce = eng.sym_bytes('nonce', 16)
+    nonce_pl = lambda nxt: B(nxt) + b'\0\0\x14' + nonce
+    spis, mid = eng.sym_bytes('spis', 16), eng.sym_bytes('mid', 4)
+    crypto = None
+    L = core.SymBytes.lift
+    if position == 'clear_second':
+        chain = L(nonce_pl(t)) + unknown
+        d = L(spis) + b'\x28\x20\x22\x08' + mid + (28 + len(chain)).to_bytes(4, 'big') + chain
+        want_nonce = True
+    else:
+        crypto = c.Crypto(c.Cipher(T(T.Type.ENCR, T.EncrId.ENCR_AES_CBC, 256)), eng.sym_bytes('sk_e', 32), c.Integrity(T(T.Type.INTEG, T.IntegId.AUTH_HMAC_SHA2_256_128)),
+                          eng.sym_bytes('sk_a', 32), c.Prf(T(T.Type.PRF, T.PrfId.PRF_HMAC_SHA2_256)), b'p' * 32)
+        if position == 'inner_first':
+            first_inner, chain, want_nonce = t, L(unknown), False
+        else:
+            first_inner, chain, want_nonce = 40, L(nonce_pl(t)) + unknown, True
+        pad = (-(len(chain) + 1)) % 16
+        plain = chain + bytes(pad) + bytes([pad])
+        iv = eng.sym_bytes('iv', 16)
+        plain = plain.lower() if isinstance(plain, core.SymBytes) else plain
+        ct = crypto.cipher.encrypt(crypto.sk_e, iv, plain)
+        hs = crypto.integrity.hash_size
+        sk_len = 4 + 16 + len(ct) + hs
+        d = L(spis) + b'\x2e\x20\x25\x08' + mid + (28 + sk_len).to_bytes(4, 'big') + B(first_inner) + b'\0' + sk_len.to_bytes(2, 'big') + iv + ct
+        d = d + crypto.integrity.compute(crypto.sk_a, d.lower() if isinstance(d, core.SymBytes) else d)
+    crit = (octet & 0x80) != 0
+    d = d.lower() if isinstance(d, core.SymBytes) else d
+    try:
+        msg = m.Message.parse(d, crypto=crypto)
+    except m.UnsupportedCriticalPayload as ex:
+        eng.prove(crit, f'{position}: an unknown payload whose Critical bit is CLEAR was rejected as critical')
+        try:
+            text = f'{ex}'
+            note = m.PayloadNOTIFY.from_exception(ex)
+        except Exception as ex2:     # noqa
+            return {'class': ['unknown', position], 'violation': f'{position}: the rejection of an unknown critical payload cannot be rendered / turned into a '
+                                                                 f'notification: {type(ex2).__name__}: {ex2}'}
+        if int(note.notification_type) != int(m.PayloadNOTIFY.Type.UNSUPPORTED_CRITICAL_PAYLOAD):
+            return {'class': ['unknown', position], 'violation': f'{position}: notification {int(note.notification_type)} instead of UNSUPPORTED_CRITICAL_PAYLOAD'}
+        return ['unknown', position, 'rejected-critical']
+    except m.IkeSaError as ex:
+        if bool(crit):
+            return {'class': ['unknown', position], 'violation': f'{position}: an unknown payload with the Critical bit set was rejected, but not AS an unsupported '
+                                                                 f'critical payload ({type(ex).__name__}): the peer is not told UNSUPPORTED_CRITICAL_PAYLOAD'}
+        return {'class': ['unknown', position], 'violation': f'{position}: a message with an unknown NON-critical payload was rejected: {type(ex).__name__}: {ex}'}
+    except Exception as ex:     # noqa
+        return {'class': ['unknown', position], 'violation': f'{position}: {type(ex).__name__} escaped from Message.parse: {ex}'}
+    eng.prove(core.sym_not(crit), f'{position}: an unknown payload with the Critical bit set was accepted')
+    got = msg.encrypted_payloads if crypto is not None else msg.payloads
+    if len(got) != (1 if want_nonce else 0):
+        return {'class': ['unknown', position], 'violation': f'{position}: {len(got)} payload objects (the unknown payload must be skipped, the others kept)'}
+    if want_nonce:
+        eng.prove(L(got[0].nonce) == nonce, f'{position}: the payload before the skipped one was altered')
+    return ['unknown', position, 'skipped']
+
+
 def build_instances(tier):
     inst = []
     for ft in sorted(int(k) for k in MODS['message'].Message.type_2_payload if int(k) != 46) + ['other']:
         inst.append(Instance(f'critical/reserved octet first={ft}', h_critical, (ft,)))
+    for pos in ('clear_second', 'inner_first', 'inner_second'):
+        inst.append(Instance(f'unknown payload {pos}', h_unknown, (pos,), native=common.native_of(h_unknown),
+                             must_reach=[('skipped', lambda o: o[-1] == 'skipped'), ('rejected', lambda o: o[-1] == 'rejected-critical')]))
     for n_clear in (0, 1, 2):
         for wi in (True, False):
             inst.append(Instance(f'clear payloads then SK n={n_clear} inner={wi}', h_clear_then_sk, (n_clear, wi),
                                  must_reach=[('round trip', lambda o: o[0] == 'clear+sk')]))
-    for k in ('KE', 'NOTIFY', 'NOTIFY0', 'DELETE', 'DELETE3', 'NONCE', 'ID', 'AUTH', 'VENDOR', 'TS', 'TS6', 'SA', 'SA3'):
+    for k in ('KE', 'NOTIFY', 'NOTIFY0', 'DELETE', 'DELETE3', 'NONCE', 'ID', 'AUTH', 'VENDOR', 'TS', 'TS6', 'SA', 'SA3', 'DELETEx17', 'DELETEx70', 'TSx20') + \
+            (() if tier == 'quick' else ('DELETEx33', 'DELETEx255', 'TSx64')):
         inst.append(Instance(f'encode {k}', h_encode, (k,), must_reach=[('encoded', lambda o: o[0] == 'encoded')]))
     known = sorted(int(k) for k in MODS['message'].Message.type_2_payload)
     for n in {'quick': (28, 31), 'thorough': (28, 29, 30, 31)}[tier]:
@@ -377,7 +473,7 @@ def replay_file(path):
         common.rerun_concrete(inst.fn, v['inputs'], inst.args)
         base = LAST_DUMP[-1] if LAST_DUMP else None
         for f in fields:
-            name = next((k for k in v['inputs'] if f == k or f.startswith(k)), None)
+            name = f if f in v['inputs'] else max((k for k in v['inputs'] if f.startswith(k)), key=len, default=None)
             if name is None or base is None:
                 continue
             alt = dict(v['inputs'])
